@@ -1964,6 +1964,13 @@ func (g Gateway) Uint32SliceDelete(ctx context.Context, in *hydrapb.Uint32SliceD
 			guardID := treasureObj.StartTreasureGuard(true)
 			defer treasureObj.ReleaseTreasureGuard(guardID)
 
+			// a treasure that is not a uint32 slice is a type mismatch: report it and leave it alone
+			// (without this check the "size == 0" branch below deleted such a treasure)
+			if _, typeErr := treasureObj.Uint32SliceSize(); typeErr != nil {
+				errorsWhileDelete = append(errorsWhileDelete, fmt.Sprintf("%s: %s", pair.GetKey(), typeErr.Error()))
+				return
+			}
+
 			if err := treasureObj.Uint32SliceDelete(pair.GetValues()); err != nil {
 				errorsWhileDelete = append(errorsWhileDelete, err.Error())
 			}
